@@ -415,6 +415,7 @@ def build_ops(Pm):
     op('to_matrix3', lambda a: a.to_matrix3(), 'azero', ('E1', 'OToMat3'), [('Quaternion',)])
     op('inverse', lambda a: a.inverse(), 'det', ('E1', 'OInverse'), [('Matrix',), ('Matrix33',)])
     op('mrecip', lambda a: a.reciprocal(), 'det', ('E1', 'OInverse'), [('Matrix',), ('Matrix33',)])
+    op('unitary', lambda a: a.unitary(), 'det', ('E1', 'OInverse'), [('Matrix33',)])
     op('m3recip', lambda a: a.reciprocal(), 'none', ('E1', 'OPass'), [('Matrix3',)])
     op('transpose', lambda a: a.transpose(), 'none', ('E1', 'OPass'), [('Matrix',), ('Matrix3',)])
     for nm in ['x_rotation', 'y_rotation', 'z_rotation']:
@@ -467,7 +468,7 @@ def build_ops(Pm):
 RESTRICTED = ['div', 'div_num', 'rdiv_num', 'div_arr', 'rdiv_arr', 'idiv', 'idiv_num', 'floordiv', 'mod',
               'floordiv_num', 'mod_num', 'rfloordiv_num', 'rmod_num', 'ifloordiv', 'imod', 'ifloordiv_num',
               'imod_num', 'pow_num', 'pow', 'mpow', 'qpow', 'sqrt', 'log', 'arcsin', 'arccos', 'reciprocal',
-              'unit', 'with_norm', 'qrecip', 'to_matrix3', 'inverse', 'mrecip', 'ucross', 'perp', 'proj', 'sep',
+              'unit', 'with_norm', 'qrecip', 'to_matrix3', 'inverse', 'mrecip', 'unitary', 'ucross', 'perp', 'proj', 'sep',
               'element_div', 'matdiv', 'qdiv', 'from_rotation', 'twovec01', 'twovec20',
               'sqrt_nocheck', 'log_nocheck', 'arcsin_nocheck', 'arccos_nocheck', 'reciprocal_nozeros',
               'inverse_nozeros']
@@ -623,7 +624,7 @@ def signature(case, impl, tags):
            'zero_size': any(0 in x['shape'] for x in d),
            'has_deriv': any(x.get('deriv') is not None for x in d),
            'kinds': '/'.join(x['kind'] for x in d)}
-    if case['op'] in ('inverse', 'mrecip', 'mpow', 'matdiv'):
+    if case['op'] in ('inverse', 'mrecip', 'mpow', 'matdiv', 'unitary'):
         m = d[1] if case['op'] == 'matdiv' else d[0]
         n = ITEM[m['cls']][0]
         sig['lapack_det_residue'] = any(
